@@ -114,8 +114,26 @@ def permute(rng, atoms, level):
 def lines_of(atoms):
     return [gen_pdb.atom_line(a) for a in atoms]
 
-def write_pdb(path, atoms):
+def write_pdb(path, atoms, hetatm=None):
+    """hetatm: extra records written as HETATM lines (waters, ions) after the ATOM records — the library reads ATOM records only"""
     with open(path, 'w') as f:
         for l in lines_of(atoms):
             f.write(l + '\n')
+        for l in lines_of(hetatm or []):
+            f.write('HETATM' + l[6:] + '\n')
     return path
+
+def gen_hetatm(rng, atoms):
+    """waters (name O) and calcium ions (name CA) carrying the chains' identifiers, on existing and on new residue numbers"""
+    out = []
+    serial = max(a['serial'] for a in atoms) + 1
+    for ch in sorted({a['chainID'] for a in atoms}):
+        nums = sorted({a['resSeq'] for a in atoms if a['chainID'] == ch})
+        for _ in range(rng.randint(1, 3)):
+            num = rng.choice([rng.choice(nums), max(nums) + rng.randint(1, 5)])
+            nm, rn, el = rng.choice([('O', 'HOH', 'O'), ('CA', 'CA', 'CA'), ('O', 'HOH', 'O')])
+            out.append({'serial': serial, 'name': nm, 'altLoc': '', 'resName': rn, 'chainID': ch, 'resSeq': num, 'iCode': '',
+                        'x': round(rng.uniform(-20, 20), 3), 'y': round(rng.uniform(-20, 20), 3), 'z': round(rng.uniform(-20, 20), 3),
+                        'occ': 1.0, 'temp': 30.0, 'element': el})
+            serial += 1
+    return out
